@@ -132,6 +132,8 @@ def leaf_to_jax(leaf, v):
     d = leaf["d"] if leaf is not None else None
     if d == "flip":
         return jnp.asarray(bool(v))
+    if d == "flipv":
+        return jnp.asarray(v, dtype=bool)
     if d in ("bernoulli", "categorical"):
         return jnp.asarray(int(v), dtype=jnp.int32)
     if d == "normalv":
@@ -1333,6 +1335,8 @@ def _junk_value(leaf):
         return 1
     if d == "normalv":
         return [0.123] * leaf["n"]
+    if d == "flipv":
+        return [True] * leaf["n"]
     if d == "poisson":
         return 2.0
     return 0.321
